@@ -5,7 +5,7 @@ MODULE = "DtailModel.Props.C07"
 TIMED_OPS = ("c07.multi",)
 GROUPS = ["C07", "C01"]
 BINS = True
-LOGGER = {"c07.multi": "none", "c07.sched": "stdout", "c07.pipe": "none"}
+LOGGER = {"c07.multi": "none", "c07.sched": "stdout", "c07.pipe": "none", "c07.globid": "none"}
 JOBS = 8
 BUDGET = {"quick": 14, "thorough": 200}
 SCHED_BUDGET = {"quick": 160, "thorough": 4000}
@@ -134,12 +134,36 @@ def gen_pipe(rng, budget, tier):
         yield f"c07.pipe {rng.choice([7, 100, 4096, 32768, 32768])} {';'.join(srcs)}"
 
 
+GLOB_SPELLINGS = ["@R/logs/*/app.log", "@R/logs//*/app.log", "@R/./logs/*/app.log", "@R/logs/x/../*/app.log", "@R//logs/*/*.log",
+                  "@R/logs/web1/*.log", "@R/logs/web1/app.log", "@R/*/web1/app.log", "@R/*/*/app.log", "@R/logs/./*/./app.log",
+                  "@R/logs/*/", "@R/logs/w*1/a*", "@R/logs/web?/app.log", "@R/logs/web[12]/app.log", "@R/nothing/*/x"]
+
+
+def gen_globid(rng, tier):
+    for g in GLOB_SPELLINGS:
+        yield "c07.globid " + g.encode().hex()
+
+
+def model_case(case, impl):
+    if case.startswith("c07.globid"):
+        return case + " " + impl.split("#", 1)[1] if "#" in impl else None
+    return case
+
+
+def impl_view(case, impl):
+    if case.startswith("c07.globid"):
+        return impl.split("#", 1)[0]
+    return impl
+
+
 def gen(rng, budget, tier):
     yield from gen_sched(rng, SCHED_BUDGET[tier], tier)
     yield from gen_pipe(rng, PIPE_BUDGET[tier], tier)
+    yield from gen_globid(rng, tier)
     yield from _gen_multi(rng, budget, tier)
 
 
 def batches(cases):
     return [[c for c in cases if c.startswith("c07.sched")], [c for c in cases if c.startswith("c07.pipe")],
+            [c for c in cases if c.startswith("c07.globid")],
             [c for c in cases if c.startswith("c07.multi")]]
